@@ -365,7 +365,7 @@ func (a *Act) contractCall(ctx *blockCtx, spec *FuncSpec, key string, pnames []s
 		vars[k] = v
 	}
 	pre := ctx.st.clone()
-	envPre := &Env{g: g, vars: vars, st: pre, old: pre, pkg: spec.Pkg}
+	envPre := &Env{g: g, vars: vars, st: pre, old: pre, pkg: spec.Pkg, aliasKey: spec.Key}
 	// implicit: pointer-to-struct arguments non-nil for contracted repo functions
 	if !spec.Assumed && sig != nil {
 		for i, n := range pnames {
@@ -438,7 +438,7 @@ func (a *Act) contractCall(ctx *blockCtx, spec *FuncSpec, key string, pnames []s
 	for k, v := range rvars {
 		allVars[k] = v
 	}
-	envModPre := &Env{g: g, vars: allVars, st: pre, old: pre, pkg: spec.Pkg}
+	envModPre := &Env{g: g, vars: allVars, st: pre, old: pre, pkg: spec.Pkg, aliasKey: spec.Key}
 	for _, m := range spec.Modifies {
 		hv, obj, err := envModPre.resolveMod(m)
 		if err != nil {
@@ -456,7 +456,7 @@ func (a *Act) contractCall(ctx *blockCtx, spec *FuncSpec, key string, pnames []s
 		}
 	}
 	a.bumpWM(ctx, res, tup)
-	envPost := &Env{g: g, vars: allVars, st: post, old: pre, pkg: spec.Pkg}
+	envPost := &Env{g: g, vars: allVars, st: post, old: pre, pkg: spec.Pkg, aliasKey: spec.Key}
 	for _, u := range spec.Uses {
 		_ = u
 	}
@@ -493,7 +493,7 @@ func (a *Act) crashInside(ctx *blockCtx, spec *FuncSpec, key string, vars map[st
 	g := a.g
 	pre := ctx.st.clone()
 	mid := ctx.st.clone()
-	envPre := &Env{g: g, vars: vars, st: pre, old: pre, pkg: spec.Pkg}
+	envPre := &Env{g: g, vars: vars, st: pre, old: pre, pkg: spec.Pkg, aliasKey: spec.Key}
 	for _, m := range spec.Modifies {
 		hv, obj, err := envPre.resolveMod(m)
 		if err != nil {
@@ -507,7 +507,7 @@ func (a *Act) crashInside(ctx *blockCtx, spec *FuncSpec, key string, vars map[st
 			mid[hv] = "(store " + g.stateGet(mid, hv) + " " + obj + " " + g.fresh(hv+"_crashat", es) + ")"
 		}
 	}
-	envMid := &Env{g: g, vars: vars, st: mid, old: pre, pkg: spec.Pkg}
+	envMid := &Env{g: g, vars: vars, st: mid, old: pre, pkg: spec.Pkg, aliasKey: spec.Key}
 	var assumed []string
 	for _, c := range spec.CrashEns {
 		assumed = append(assumed, a.trClauseEnv(envMid, c, "crashensures of "+key))
@@ -950,6 +950,9 @@ func (a *Act) ghostAssign(ctx *blockCtx, env *Env, gu GhostUpdate) {
 		panic(specErr(err.Error()))
 	}
 	if obj == "" {
+		if hs, ok := g.w.heapVars[hv]; ok && v.S != "" && v.S != "$nil" && string(hs) != string(v.S) {
+			panic(specErr(fmt.Sprintf("ghost update of %s (%s) with a value of sort %s", gu.Target, hs, v.S)))
+		}
 		ctx.st[hv] = v.T
 	} else {
 		ctx.st[hv] = "(store " + g.stateGet(ctx.st, hv) + " " + obj + " " + v.T + ")"
@@ -1125,7 +1128,7 @@ func (g *Gen) callMods(a *Act, c *ssa.CallCommon, set map[string]bool, depth int
 	if spec == nil {
 		return
 	}
-	env := &Env{g: g, vars: map[string]Val{}, st: State{}, pkg: spec.Pkg}
+	env := &Env{g: g, vars: map[string]Val{}, st: State{}, pkg: spec.Pkg, aliasKey: spec.Key}
 	// bind parameter names to dummies with the right Go types for resolveMod
 	if !c.IsInvoke() {
 		if callee := c.StaticCallee(); callee != nil {
